@@ -301,9 +301,43 @@ def t11_hmtx(run, fx):
             run.fail(rule, "hmtx-flag:%s" % fn, "%s tests %s (value %s); expected %s = %d" % (fn, consts, val, cpath.split("::")[-1], bit), "%s:%s" % (b.file, b.line))
 
 
+def t11_xmin(run, fx):
+    rule = "T11-XMIN"
+    run.rule(rule, "hmtx reconstruction (WOFF2 5.4: an omitted lsb is the glyph's xMin): for a glyph that is still raw bytes, xMin is read from "
+                   "the glyph header after numberOfContours - Woff2HmtxTable::x_min reads an i16 from the same cursor before it reads the BoundingBox")
+    b = fx.body("woff2::Woff2HmtxTable::x_min")
+    if b is None:
+        return run.anchor_missing(rule, "woff2::Woff2HmtxTable::x_min")
+    import sym
+    prov = sym.Prov(b)
+    n = 0
+    for bi, t in b.calls():
+        ga = " ".join(t["callee"].get("args") or [])
+        p = t["callee"].get("path") or ""
+        if "BoundingBox" not in ga or not (p.endswith("::read") or p.endswith("read_dep")):
+            continue
+        n += 1
+        if "ReadCtxt" not in p:
+            run.fail(rule, "xmin:header", "x_min reads the BoundingBox with %s at the start of the glyph data: numberOfContours is taken for xMin" % p.split("::")[-3], b.loc(t))
+            continue
+        recv = sym.norm(sym.strip(prov.op(t["args"][0])))
+        pre = [bj for bj, t2 in b.calls() if (t2["callee"].get("path") or "").endswith(("read_i16be", "read_u16be")) and b.dominates(bj, bi)
+               and sym.norm(sym.strip(prov.op(t2["args"][0]))) == recv]
+        if pre:
+            run.ok(rule, "x_min: read_i16be (numberOfContours), then the BoundingBox, on the same cursor")
+        else:
+            run.fail(rule, "xmin:header", "x_min reads the BoundingBox without first consuming numberOfContours on the same cursor", b.loc(t))
+    if n == 0:
+        run.anchor_missing(rule, "BoundingBox read in x_min")
+
+
 def check(run, fx, tier, floors=True):
     if floors or fx.body("woff2::HmtxTableFlag::lsb_is_present") is not None:
         t11_hmtx(run, fx)
+        t11_xmin(run, fx)
+    if floors or any(b.root.endswith("Woff2TableProvider::new") for b in fx.bodies):
+        import rules_C09
+        rules_C09.t09_loca_woff2(run, fx)
     t11_lut(run, fx, floors)
     t11_tags(run, fx, floors)
     t11_packed(run, fx, floors)
